@@ -197,10 +197,34 @@ func ruleC08Latch(r *Run) {
 					}
 				}
 			}
+			if !setLatch {
+				// path-sensitive form: every path to the commit stores a written value into the latch and does not reset it afterwards
+				setLatch = allPathsTo(in, func(p *pathCtx) bool {
+					set := false
+					for _, b := range p.blocks {
+						for _, x := range b.Instrs {
+							if x == in {
+								return set
+							}
+							if st, isSt := x.(*ssa.Store); isSt {
+								if fa, isFA := st.Addr.(*ssa.FieldAddr); isFA && fieldVar(fa.X.Type(), fa.Field) == m.lengthF {
+									cv, okc := constInt(st.Val)
+									set = okc && cv != m.noWritten
+								}
+							}
+						}
+					}
+					return set
+				})
+			}
 			r.Check(rule, construct+" latch-set", w.InstrPos(in), setLatch, map[bool]string{true: "length leaves noWritten on the committing path", false: "the committing path does not mark the response as written: the next Write/Flush/end-of-request commits again"}[setLatch])
 			// (c) the argument is the recorded status (after the 0 -> 200 default)
 			args := c.Common().Args
 			okArg := len(args) == 1 && isLoadOfField(args[0], m.statusF)
+			if !okArg && len(args) == 1 {
+				// the status travels through a merged local: on every path it is the recorded status field
+				okArg = allPathsTo(in, func(p *pathCtx) bool { return isLoadOfField(resolvePhi(args[0], p), m.statusF) })
+			}
 			r.Check(rule, construct+" arg", w.InstrPos(in), okArg, map[bool]string{true: "commits the recorded status field", false: "commits something other than the recorded status"}[okArg])
 			if okArg {
 				// default: a store of 200 to status under status == 0 dominates
@@ -229,6 +253,10 @@ func ruleC08Latch(r *Run) {
 	for _, f := range w.Funcs {
 		for i, st := range storesToField(f, m.lengthF) {
 			construct := fmt.Sprintf("%s:store length#%d", FuncName(f), i+1)
+			if constructionCopy(st) {
+				r.Check(rule, construct, w.InstrPos(st), true, "a new writer value is initialised with the source's recorded length (field-wise copy of the context)")
+				continue
+			}
 			if cv, okc := constInt(st.Val); okc {
 				if cv == m.noWritten {
 					// only in a function called only from Context.Init with the new underlying writer
